@@ -462,6 +462,15 @@ def b_format(I, args, kwargs, node):
     return py_format(I, args[0], args[1] if len(args) > 1 else "", node)
 
 
+def b_next(I, args, kwargs, node):
+    items = I.iterate(args[0], node)
+    if items:
+        return items[0]
+    if len(args) > 1:
+        return args[1]
+    raise PyRaise(StopIteration)
+
+
 def b_ord(I, args, kwargs, node):
     (c,) = args
     if isinstance(c, str):
@@ -487,7 +496,7 @@ _BUILTINS = {
     _bi.any: b_any, _bi.all: b_all, _bi.sum: b_sum, _bi.getattr: b_getattr, _bi.hasattr: b_hasattr,
     _bi.setattr: b_setattr, _bi.print: b_print, _bi.callable: b_callable, _bi.id: b_id,
     _bi.object.__init__: b_object_init, _bi.slice: b_slice, _bi.format: b_format,
-    _bi.ord: b_ord, _bi.chr: b_chr,
+    _bi.ord: b_ord, _bi.chr: b_chr, _bi.next: b_next,
 }
 
 
